@@ -147,8 +147,11 @@ CLAIMED = {
     'C06': dict(
         text='K2 (state = complete <=> n_completed = n_jobs) is proved preserved for EVERY group of the batch and for the batch row by mark_job_complete (with the cursor loop of mark_job_group_complete executed as a pointwise transformer) '
         'and by commit_batch_update, whose staged-count aggregate is shown pointwise to sum all staging rows of (batch, update, group); groups reopen iff jobs were staged; a wrong staged count rolls everything back; '
-        'batch_record_to_dict / job_group_record_to_dict pass the flag and counters through (AST obligations).',
-        note=COMMON_NOTE + 'Assumed: each procedure/trigger invocation is atomic (serialisable isolation, justified by the lock-discipline obligations); MySQL NULL/boolean semantics as encoded in vc/sqlvc.py; integer column widths sufficient; SQL cannot be executed in this sandbox so counter-models are rows (VIOLATION ... no-failing-input-found). ' + 'The counting invariant K is used through its consequences (n_completed <= n_jobs; < for ancestors of a committed non-terminal job) - maintained under C04/C41. Sums compared pointwise (paper lemma L2).',
+        'batch_record_to_dict / job_group_record_to_dict pass the flag and counters through (AST obligations). '
+        'Counting invariant K in delta form on the final database of every path: mark_job_complete adds one to n_completed and to the outcome counter of new_state for exactly the groups of anc*(group of the job) and makes exactly that job terminal; '
+        'every other procedure assigning jobs.state (closed-world scan, commit_batch_update included) changes no job\'s terminal-ness and moves no count - a job counted complete is never reset. '
+        '_create_jobs.insert_jobs_into_db (pyvc fragment, native replay): each (group, inst_coll) entry of the bunch stages its own n_jobs under the ancestors of its own group.',
+        note=COMMON_NOTE + 'Assumed: each procedure/trigger invocation is atomic (serialisable isolation, justified by the lock-discipline obligations); MySQL NULL/boolean semantics as encoded in vc/sqlvc.py; integer column widths sufficient; SQL cannot be executed in this sandbox so counter-models are rows (VIOLATION ... no-failing-input-found). ' + 'K2 uses the counting invariant K through its consequences (n_completed <= n_jobs; < for ancestors of a committed non-terminal job). The K delta clauses take from other properties: a child of a live job is Pending (C05), no job is its own parent (C08), jobs of an uncommitted update are not terminal and batch_updates has one row per update (C41, C09). A derived table with LIMIT n is an arbitrary n-subset of its rows (ORDER BY over-approximated). Sums compared pointwise (paper lemma L2).',
         technique='procedure contracts (invariant preservation, pointwise aggregate obligations) on the real SQL text, sqlvc -> z3',
         engine='sqlvc',
         design_ref='7/C06',
